@@ -128,6 +128,12 @@ def _conc(ctx, path):
 # ------------------------------------------------------------------ the check
 
 def run(ctx):
+    if getattr(ctx, "replay", None):
+        # a replay file names the tier and seed of the failing run; the run is deterministic in them
+        # (except the concurrent UUID run), so re-running with them re-executes the failing inputs
+        d = json.load(open(ctx.replay))
+        ctx.tier, ctx.seed = d.get("tier", ctx.tier), int(d.get("seed", ctx.seed))
+        ctx.log("replaying tier=%s seed=%d (%d recorded violation(s))" % (ctx.tier, ctx.seed, len(d.get("violations", []))))
     quick = ctx.tier == "quick"
     ctx.level = "exploration"
     nproc = _nproc(ctx)
@@ -297,10 +303,16 @@ def run(ctx):
                         dup = (first[t], u)
                         break
                     first[t] = u
-                conc_viol.setdefault("timeuuid-concurrent-duplicate",
-                              ("two TimeUUID() calls returned the same UUID %s (goroutines %s and %s; %d goroutines x %d calls)" % (
+                # every call obtained its own counter value (TLC: clockSeq advanced by exactly the number of
+                # calls) and still two UUIDs coincide: their counters differ by a multiple of 2^14 - the limit
+                # UuidGen_wrap.cfg exhibits (a call delayed between reading the clock and incrementing the
+                # counter while >= 2^14 other UUIDs were generated).  Otherwise increments were lost or missing.
+                wrap = res["counter"] and conc_g * conc_m >= 16384
+                conc_viol.setdefault("timeuuid-concurrent-duplicate" + ("-clockseq-wrap" if wrap else ""),
+                              ("two TimeUUID() calls returned the same UUID %s (goroutines %s and %s; %d goroutines x %d calls)%s" % (
                                   _hex(dup[0]["u"]) if dup else "?", dup[0]["g"] if dup else "?", dup[1]["g"] if dup else "?",
-                                  conc_g, conc_m), dict(duplicate=dup)))
+                                  conc_g, conc_m, "; every call incremented clockSeq, so the 14-bit clock sequence wrapped "
+                                  "between the two calls while both read the same 100 ns tick" if wrap else ""), dict(duplicate=dup)))
                 conc_ok = False
             if not res["counter"] and conc_ok:
                 ctx.add_drift("clockSeq did not advance by exactly one per TimeUUID() call (generator model UuidGen.tla): "
@@ -312,6 +324,12 @@ def run(ctx):
     evaluations += tot
     ctx.log("concurrent TimeUUID: %d goroutines x %d, %d UUIDs checked pairwise distinct by TLC in %d shards: %s" % (
         conc_g, conc_m, tot, len(files), "distinct" if conc_ok else "NOT distinct"))
+
+    # ---- 5b. the mechanism behind the clock-sequence limit, shown on the real code (informational)
+    rc, out = vf.run_gotest(ctx, gbin, "^TestVfC19WrapDemo$")
+    m = re.search(r"^VFWRAP (.*)$", out, re.M)
+    if m:
+        ctx.notes.append("clock-sequence limit on the real code (UUIDFromTime with one fixed time, 2^14 calls apart): " + m.group(1))
 
     # ---- 6. verdict
     byk = {}
